@@ -1,6 +1,7 @@
 package cmp
 
 import (
+	"math"
 	"time"
 
 	pref "google.golang.org/protobuf/reflect/protoreflect"
@@ -55,18 +56,17 @@ func DurationValueWithin(d time.Duration) Value {
 	}
 }
 
-// DurationValueWithinP considers two durationpb.Duration to be equal if their values are within p percent of each other.
+// DurationValueWithinP considers two durationpb.Duration to be equal if their values are within p percent of each other:
+// the difference between the two is at most p percent of the smaller of their magnitudes.
+// The comparison does not depend on the order of the arguments and, for p >= 0, every duration is within p percent of itself.
 func DurationValueWithinP(p float32) Value {
 	return func(fd pref.FieldDescriptor, x, y pref.Value) (equal, ok bool) {
 		xd, yd, equal, ok, returnEarly := cmpDuration(fd, x, y)
 		if returnEarly {
 			return equal, ok
 		}
-		pd := float32(xd) / float32(yd)
-		if pd < 0 {
-			pd = -pd
-		}
-		return pd < p, true
+		fx, fy := float64(xd), float64(yd)
+		return math.Abs(fx-fy)*100 <= float64(p)*math.Min(math.Abs(fx), math.Abs(fy)), true
 	}
 }
 
